@@ -624,6 +624,9 @@ TEXT_EDITS = [
     ('evolution.py', '    Local "zero-site" bond step, based on a Lanczos iteration.\n    """\n',
      '    Local "zero-site" bond step, based on a Lanczos iteration.\n    """\n    if dt == 0:\n        return C\n',
      'silent', ['C08', 'C09'], '_local_bond_step: early exit for a vanishing time step (benign)'),
+    ('evolution.py', "    return expm_krylov(\n        lambda x: apply_local_hamiltonian(L, R, W, x.reshape(A.shape)).reshape(-1),\n            A.reshape(-1), -dt, numiter, hermitian=True).reshape(A.shape)",
+     "    v = expm_krylov(\n        lambda x: apply_local_hamiltonian(L, R, W, x.reshape(A.shape)).reshape(-1),\n            A.reshape(-1), -dt, numiter, hermitian=True)\n    Anew = v.reshape(A.shape)\n    return Anew",
+     'silent', ['C08', 'C09'], '_local_hamiltonian_step: result held in local names before it is returned (benign)'),
     ('opchain.py', "        for oid in self.oids:\n            op = np.kron(op, opmap[oid])",
      "        for k in range(len(self.oids)):\n            op = np.kron(op, opmap[self.oids[k]])",
      'silent', ['C03', 'C17'], 'OpChain.as_matrix: index loop over the operator ids (benign)'),
